@@ -4,4 +4,11 @@ go 1.21
 
 require github.com/ctessum/geom v0.0.0
 
+require (
+	github.com/ctessum/polyclip-go v1.1.0 // indirect
+	github.com/gonum/floats v0.0.0-20181209220543-c233463c7e82 // indirect
+	github.com/gonum/internal v0.0.0-20181124074243-f884aa714029 // indirect
+	gonum.org/v1/gonum v0.9.3 // indirect
+)
+
 replace github.com/ctessum/geom => /repo
